@@ -297,9 +297,27 @@ def gen_union_case(rng, cid, tier):
         else:
             lgk = rng.randint(4, 12 if tier == "quick" else hi)
         t = rng.randrange(3)
-        kind = rng.choice(["empty", "list", "list", "set", "set", "array", "array", "array", "array_ooo", "array_ooo"])
+        kind = rng.choice(["empty", "list", "list", "set", "set", "array", "array", "array", "array_ooo", "array_ooo",
+                           "uniform", "uniform_ooo"])
         if kind == "set" and lgk < 8:
             kind = "array"
+        if kind.startswith("uniform"):
+            # every register holds the same non-zero value v: Hll4 has cur_min = v and num_at_cur_min = k,
+            # Hll6/Hll8 have no zero register (is_empty() must still be false)
+            lgk = rng.choice([4, 4, 5, 6, 7]) if rng.random() < 0.8 else min(lgk, 9)
+            if rng.random() < 0.6:
+                t = 0
+            ops.append((10, [i, lgk, t]))
+            v = rng.choice([1, 1, 2, 3])
+            order = list(range(1 << lgk))
+            rng.shuffle(order)
+            for s_ in order:
+                ops.append((11, [i, cp(s_ | (rng.getrandbits(26 - lgk) << lgk), v)]))
+            if kind == "uniform_ooo":
+                ops.append((13, [i]))
+            ops.append((17, [i]))
+            kinds.append((kind, lgk, t))
+            continue
         ops.append((10, [i, lgk, t]))
         thr = set_threshold(lgk)
         if kind == "empty":
@@ -363,7 +381,7 @@ def gen_union_case(rng, cid, tier):
             look(full=False)
         rng.shuffle(order)
         feed(order, dups=True)
-    tag = "hllunion-lgmax%d-%s" % (lg_max, "+".join("%s%d" % (k[:1] if k != "array_ooo" else "o", l) for k, l, t in kinds))
+    tag = "hllunion-lgmax%d-%s" % (lg_max, "+".join("%s%d" % ({"array_ooo": "o", "uniform": "u", "uniform_ooo": "v"}.get(k, k[:1]), l) for k, l, t in kinds))
     return Case(cid, [lg_max, 1], ops, tag=tag)
 
 
@@ -552,7 +570,9 @@ def kxq_of(regs):
 
 def rand_regs(rng, lgk, typ):
     k = 1 << lgk
-    style = rng.choice(["sparse", "dense", "high", "curmin", "boundary"])
+    style = rng.choice(["sparse", "dense", "high", "curmin", "boundary", "uniform"])
+    if style == "uniform":
+        return [rng.choice([1, 1, 2, 3, 63])] * k
     if style == "boundary":
         # the smallest possible exception (cur_min + 15) next to cur_min + 14 and cur_min + 16
         base = rng.randint(0, 47)
@@ -684,6 +704,67 @@ def gen_malformed_case(rng, cid, tier):
     return Case(cid, [rng.randint(4, 12)], ops, tag="hllmalformed")
 
 
+def gen_extremes_case(rng, cid, tier):
+    """valid API sequences at the documented extremes lg_k = 4 and lg_k = 21 (C17): every stream kind at 4
+    (values up to 63, cur_min shifts to the top, aux growth), long sparse phases at 21, unions with lg_max 4 / 21"""
+    r = rng.random()
+    if r < 0.45:
+        lgk = 4
+        b = Builder(lgk)
+        kind = rng.choice(STREAMS + [stream_cur_min, stream_aux_boundary])
+        kind(rng, b, 0, lgk, tier)
+        for t in (0, 1, 2):
+            b.ops.append((7, [0, t])); b.ops.append((8, [0, t]))
+        b.check(0, rng)
+        return Case(cid, [lgk], b.ops, tag="hllextreme-%s-lgk4" % kind.__name__[7:])
+    if r < 0.75:
+        lgk = 21
+        b = Builder(lgk)
+        n = rng.choice([5, 9, 30, 200, 3000] + ([20000] if tier != "quick" else []))
+        base = rng.getrandbits(55)
+        for i in range(n):
+            if rng.random() < 0.7:
+                b.upd(0, base + i)
+            else:
+                b.cpn(0, cp(rng.getrandbits(26), rng.randint(1, 63)))
+            if i in (6, 7, 8, 23, 24, 25, 47, 48, 49, 95, 96, 97) or rng.random() < 0.002:
+                b.check(0, rng)
+        b.check(0, rng)
+        for t in (0, 1, 2):
+            b.ops.append((7, [0, t])); b.ops.append((8, [0, t]))
+        b.check(0, rng)
+        return Case(cid, [lgk], b.ops, tag="hllextreme-sparse-lgk21")
+    # unions at lg_max 4 / 21 with inputs at lg_k 4, 21 and in between (array inputs only below lg_k 10)
+    lg_max = rng.choice([4, 21])
+    ops = []
+    n_in = rng.choice([2, 3, 4])
+    for i in range(n_in):
+        lgk = rng.choice([4, 4, 21, rng.randint(5, 9)])
+        t = rng.randrange(3)
+        ops.append((10, [i, lgk, t]))
+        if lgk == 21:
+            n = rng.choice([0, 3, 7, 8, 60, 900])
+        else:
+            n = rng.choice([0, 5, set_threshold(lgk) + rng.randint(0, 3 << lgk)])
+        for _ in range(n):
+            ops.append((11, [i, cp(rng.getrandbits(26), rng.randint(1, 63) if rng.random() < 0.2 else rand_value(rng))]))
+        if rng.random() < 0.3:
+            ops.append((13, [i]))
+        ops.append((17, [i]))
+    order = list(range(n_in))
+    for rnd in range(2):
+        rng.shuffle(order)
+        for i in order:
+            ops.append((14, [i]))
+            for t in (0, 1, 2):
+                ops.append((18, [t])); ops.append((19, [t]))
+            ops.append((20, [])); ops.append((21, []))
+        item = rng.getrandbits(40)
+        ops.append((15, [item, coupon_of_item(item)]))
+        ops.append((16, []))
+    return Case(cid, [lg_max, 1], ops, tag="hllextreme-union-lgmax%d" % lg_max)
+
+
 def gen(rng, tier, n=None, focus=None):
     if focus == "union":
         n = n or (120 if tier == "quick" else 1500)
@@ -697,6 +778,9 @@ def gen(rng, tier, n=None, focus=None):
     if focus == "foreign":
         n = n or (150 if tier == "quick" else 2000)
         return [gen_foreign_case(rng, i, tier) for i in range(n)]
+    if focus == "extremes":
+        n = n or (16 if tier == "quick" else 200)
+        return [gen_extremes_case(rng, i, tier) for i in range(n)]
     if focus == "malformed":
         n = n or (200 if tier == "quick" else 4000)
         return [gen_malformed_case(rng, i, tier) for i in range(n)]
